@@ -236,6 +236,9 @@ def _check_expected(case: dict) -> Result:
         res.fail(f"not-explorable :: {w}: chosen {chosen}")
     if len(chosen) != min(T, len(explorable)):
         res.fail(f"sequence-length :: {w}: {len(chosen)} coalitions chosen, expected {min(T, len(explorable))}")
+    if res.failures:          # the sequence itself is malformed: the per-step oracle below presupposes distinct explorable coalitions
+        res.label("expected-greedy", f"n={n}")
+        return res
     col_vals = [vals[i] for i in order]
     tie_tol = 1e-6 if case["rng"] is not None else 1e-9 * scale
     means = []
@@ -337,11 +340,11 @@ def expected_cases(draw, n_max: int, procs):
     R = draw(st.integers(1, 3))
     games, cls = draw(game_specs(n, R, sam_ok=False))
     nexp = (1 << n) - n - 2
-    T = draw(st.integers(1, min(nexp, 3 if n >= 4 else 3)))
+    T = draw(st.sampled_from([t for t in (3, 4, 2, 5, 1) if t <= nexp]))
     return {"kind": "expected", "cfg": {"n": n, "games": games, "computer": draw(st.sampled_from(["superadditive", "superadditive_cached"])),
-                                         "gap": draw(st.sampled_from(["exploitability", "l1_norm", "linf_norm"])), "budget": None},
+                                         "gap": draw(st.sampled_from(["linf_norm", "exploitability", "linf_norm", "l1_norm"])), "budget": None},
             "repetitions": R, "max_steps": T, "procs": procs, "rng": draw(st.sampled_from([None, None, 5])),
-            "compare_best": n == 3 or T <= 2}
+            "compare_best": n == 3 or T <= 2}     # flat steps (no single reveal lowers the mean gap) are typical for linf_norm
 
 
 def _sample(case):
